@@ -556,14 +556,20 @@ def run(rep, sub=False):
         idx_leaf = []
         from roles import binding_roles
         ROLES, _rec = binding_roles(ogp)
-        IDX_F, NAME_F = (ROLES['index'], ROLES['name']) if ROLES else ('binding_index', 'name')
+        if not ROLES:
+            # the lookup key is `binding.<name field>`: which field carries the variable's own name is known only from where the record is built
+            rep.bad('C03.4.map-wiring', 'binding-record-name', where_t, 'cannot find where the collected-binding record is filled from a variable\'s own name / @binding index / type / address '
+                    'space: the key under which the layout entry looks its stages up may not be the key the walk recorded them under', undecided=True)
+            continue
+        IDX_F, NAME_F = ROLES['index'], ROLES['name']
         E.walk(bnd[2], lambda x: idx_leaf.append(x) if x[0] == 'f' and x[2] == IDX_F else None)
         arg = stages_argument(vis[2])
         if arg is None or not idx_leaf:
             rep.bad('C03.4.visibility-hole', 'visibility-arg', where_t, 'cannot identify the stage set that is printed into `visibility:`', undecided=True)
             continue
         binding = idx_leaf[0][1]
-        nameT = ('f', binding, NAME_F)
+        from roles import rt as _rt
+        nameT = _rt(binding, NAME_F)
         gets = []
         E.walk(arg, lambda x: gets.append(x) if x[0] == 'mcall' and x[2] == 'get' and not any(x == g for g in gets) else None)
         ok_map = len(gets) == 1 and gets[0][1][0] == 'new' and gets[0][1][1] in ('BTreeMap', 'HashMap') and gets[0][1][3] == () and gets[0][3] == [('unwrap', nameT)]
@@ -599,8 +605,6 @@ def run(rep, sub=False):
         # the stage set of the push-constant range is part of this property's statement; its wiring is decided by C13's rules
         from common import include
         include(rep, 'c13', ('C13.stages', 'C13.wiring', 'C13.fallback', 'C13.selection', 'C13.iff'), 'push-constant-stages')
-        # the lookup key `binding.name` is the key of the stage map only if the binding record carries the variable's own name (C11.R2 decides that)
-        include(rep, 'c11', ('C11.R2.element-fields',), 'binding-record-name')
     # the section reaches the assembled output unconditionally (shared rule, lib/sections.py)
     from sections import check_wiring
     check_wiring(rep, 'C03.section-wiring', ['pub mod bind_groups', 'PUSH_CONSTANT_STAGES'], 'visibility-sections')
